@@ -140,7 +140,7 @@ GMsg *WorldQ::new_auto_msg(uint64_t n, int pid) {
 // ---------------------------------------------------------------- event dispatch
 void WorldQ::on_event(const Event &e) {
   Proc *p = e.proc;
-  if (e.call == C_CRASH) { after_crash(); if (tg) tg->on_crash(); return; }
+  if (e.call == C_CRASH) { if (e.path != "best") had_lossy_crash = true; after_crash(); if (tg) tg->on_crash(); return; }
   if (!p) return;
   // --- track which files of the queue exist
   bool qmut = false; std::string dir; uint64_t n = 0;
@@ -415,12 +415,17 @@ void WorldQ::on_send_event(const Event &e) {
         for (auto &r : m->rc) if (r.noted) { r.noted = false; r.bounced = true; }
         if (discard) k->probe("triple_bounce_discarded");
       } else if ((dir == "local" || dir == "remote") && m && !in_todo && m->phase == GMsg::PREPROCESSED) {
-        if (enabled("c03") && e.ino) { std::vector<GRcpt> v; parse_chan_file(e.ino->data, 0, v); for (auto &r : v) if (!r.marked) { violate("C03.channel-file-removed-with-pending", e.path + " unlinked while " + r.addr + " is not done"); break; } }
+        int ch = dir == "local" ? 0 : 1;
+        if (enabled("c03")) for (auto &r : m->rc) if (r.chan == ch) {
+          bool dying = m->birth + lifetime < k->clock;
+          bool final_report = r.k_reports > 0 || ((r.last_verdict == 'D' || (r.last_verdict == 'Z' && dying)) && (r.noted || r.bounced));
+          if (!r.marked && !final_report) { violate("C03.channel-file-removed-with-pending", e.path + " unlinked while " + r.addr + " is neither marked done nor finally reported"); break; }
+        }
       } else if (dir == "info" && m && !in_todo) {
         m->info_unlinked_by_send = true;
         if (m->phase == GMsg::PREPROCESSED && enabled("c03")) {
           for (auto &r : m->rc) {
-            bool fine = r.k_done || r.bounced || r.exempt || (r.marked && r.cmds == 0 /* finished before this ghost saw it (planted / pre-crash) */);
+            bool fine = r.k_done || r.k_reports > 0 || r.bounced || r.exempt || (r.marked && r.cmds == 0 /* finished before this ghost saw it (planted / pre-crash) */);
             if (!fine) { violate("C03.dropped-recipient", m->id + " (msg " + std::to_string(n) + ") leaves the queue but recipient " + r.addr + " was neither delivered nor bounced" + (r.noted ? " (failure noted, bounce never queued)" : "")); break; }
           }
         }
@@ -491,13 +496,53 @@ void WorldQ::finish_c01() {
 
 void WorldQ::finish_c03() {
   if (!enabled("c03") || !plan->knobs.getb("expect_drain", false) || !k->abort_reason.empty()) return;
+  if (!send_pid || send_term_seen) return;   // liveness is a statement about a running daemon
   for (auto *m : msgs) if (m->accepted && m->phase != GMsg::FINISHED) {
     violate("C03.not-drained", m->id + " (msg " + std::to_string(m->num) + ") still in the queue at the end of the run: phase " + std::to_string((int)m->phase) + " pattern " + pat_str(scan_pattern(m->num)));
     break;
   }
 }
 
-void WorldQ::plant(const Json &op) { (void)op; }
+// leftovers and survivors of an earlier life of the machine, created host-side before boot
+void WorldQ::plant(const Json &op) {
+  std::string st = op.gets("state", "S2");
+  int64_t age = op.geti("age", 0);
+  uint32_t uq = uids["qmailq"], us_ = uids["qmails"];
+  Inode *mi = k->new_inode(T_REG, 0644, uq, gid_qmail);
+  uint64_t n = mi->ino; mi->nlink = 1;
+  std::string body = "Received: (qmail 1 invoked by uid 1001); 1 Jan 2001 00:00:00 -0000\nplanted " + std::to_string(n) + "\n";
+  mi->data = mi->synced = body; mi->atime = mi->mtime = mi->ctime = k->clock - age;
+  Inode *md = k->lookup(home + "/queue/mess/" + std::to_string(n % (uint64_t)split)); md->ents[std::to_string(n)] = n;
+  GMsg *m = new GMsg; m->id = op.gets("id", "planted" + std::to_string(n)); m->num = n; m->pre_planted = true; m->sender = op.gets("sender", "ps@x.example");
+  for (auto &r : op["rcpts"].a) m->rcpts.push_back(r.str());
+  if (m->rcpts.empty()) m->rcpts.push_back("p" + std::to_string(n) + "@l.example");
+  msgs.push_back(m); byid[m->id] = m; bynum[n] = m; pattern[n] = QB_M;
+  std::string env = "u1001" + std::string(1, '\0') + "p1" + std::string(1, '\0') + "F" + m->sender + std::string(1, '\0');
+  for (auto &r : m->rcpts) env += "T" + r + std::string(1, '\0');
+  auto mk = [&](const std::string &path, const std::string &data, uint32_t uid) { Inode *f = k->put_file(path, data, 0600, uid, gid_qmail); f->atime = f->mtime = f->ctime = k->clock - age; return f; };
+  if (st == "S3") { mk(qp("intd", n, false), env.substr(0, env.size() / 2), uq); pattern[n] |= QB_I; m->phase = GMsg::ABORTED; }
+  else if (st == "S2") { m->phase = GMsg::ABORTED; }
+  else if (st == "S4") {
+    Inode *t = mk(qp("intd", n, false), env, uq); pattern[n] |= QB_I | QB_T;
+    Inode *td = k->lookup(home + "/queue/todo"); td->ents[std::to_string(n)] = t->ino; t->nlink++;
+    if (op.getb("drop_intd", false)) { k->remove_path(qp("intd", n, false)); pattern[n] &= (uint8_t)~QB_I; }
+    if (op.getb("stale_info", false)) { mk(qp("info", n, true), "Fstale" + std::string(1, '\0'), us_); pattern[n] |= QB_F; mk(qp("local", n, true), "Tstale@l.example" + std::string(1, '\0'), us_); pattern[n] |= QB_L; }
+    m->published = m->accepted = true; m->phase = GMsg::QUEUED;
+  } else if (st == "S5") {
+    mk(qp("info", n, true), "F" + m->sender + std::string(1, '\0'), us_); pattern[n] |= QB_F;
+    std::string lf, rf; size_t idx = 0; int64_t ndone = op.geti("done", 0);
+    for (auto &r : m->rcpts) { bool remote = r.size() > 10 && r.compare(r.size() - 10, 10, "@r.example") == 0; std::string rec = std::string(1, (int64_t)idx < ndone ? 'D' : 'T') + r + std::string(1, '\0'); (remote ? rf : lf) += rec; idx++; }
+    if (!lf.empty()) { mk(qp("local", n, true), lf, us_); pattern[n] |= QB_L; }
+    if (!rf.empty()) { mk(qp("remote", n, true), rf, us_); pattern[n] |= QB_R; }
+    m->published = m->accepted = true; m->phase = GMsg::QUEUED;   // the ghost re-reads the channel files below
+    m->phase = GMsg::PREPROCESSED; m->rc.clear();
+    Inode *l = k->lookup(qp("local", n, true)), *r = k->lookup(qp("remote", n, true));
+    if (l) parse_chan_file(l->data, 0, m->rc);
+    if (r) parse_chan_file(r->data, 1, m->rc);
+    m->birth = k->clock - age; m->info_sender = m->sender;
+  }
+}
+
 
 World *make_world_q() { return new WorldQ; }
 
